@@ -510,6 +510,41 @@ PROPS = {
                        "RFC 3597 generic form, quoted character strings and TXT): needs core::fmt, the Scanner trait-object graph and "
                        "BytesMut, out of reach of both tools beyond single symbols (CBMC needs 45 s for one symbol through fmt).",
     },
+    "C13": {
+        "level": "proof",
+        "level_prefix": "Partial proof -- contracts discharged without bound on the mechanisms named below, not the whole statement (bounded stand-ins and what is left out are listed): ",
+        "units": ["nsecchain"],
+        "vx_search": {"bin": "c13_search_small_zones", "crate": "replay_sign", "release": True,
+                      "what": "2048 zones (apex plus every subset of ten owner names: ordinary names, a wildcard, an insecure and a secure "
+                              "delegation, glue and deeper names below them, a delegation point that also holds an A record, names that "
+                              "create empty non-terminals, names outside the zone; both DNSKEY settings) through generate_nsecs and "
+                              "generate_nsec3s (no opt-out): against an independent declarative description -- one NSEC per owner name in "
+                              "the zone not below a delegation point, canonical order, next pointers closing at the apex, exact bitmaps, TTL "
+                              "and class; one NSEC3 per such name and per empty non-terminal, sorted by hash, next hashed owner closing the "
+                              "ring, no NSEC bit, empty bitmap exactly at empty non-terminals, parent-side types at delegations -- on the real crate"},
+        "kani": [],
+        "explanation": "the NSEC chain: dnssec::sign::denial::nsec::generate_nsecs (real text, both loops with invariants, no bound on the "
+                       "zone) returns, for the sorted owner names it is given, exactly one NSEC per name that is in the zone and not below a "
+                       "delegation point (delegation points included; the scan over the sorted names that skips everything under the last "
+                       "delegation point and stops at the first name outside the zone is written as the spec function `scan`), in the order of "
+                       "the input, each pointing to the owner of the next one and the last one to the apex, with a type bitmap of exactly "
+                       "RRSIG, NSEC, the types present at the name (only NS and DS at a delegation point) and DNSKEY at the apex when the "
+                       "configuration says so, class of the SOA and TTL = min(SOA MINIMUM, SOA TTL) (RFC 9077); its four unwrap() calls are "
+                       "dead. Canonical order of the input is the subject of C04; the bitmap encoding of C05. NSEC3 chains and the NSEC "
+                       "chain on concrete zones: the native search.",
+        "not_covered": "NSEC3 generation (generate_nsec3s: hashing with ring, empty non-terminal discovery, opt-out, collision handling, "
+                       "1400 lines of iterator and sorter code) is outside the contracts and only sampled by the native search (bounded, no "
+                       "opt-out); that the scan over sorted names equals the declarative 'not below any delegation point' (needs the "
+                       "subtree-contiguity of the canonical order) is checked by the native search only; NSEC3PARAM placement; the "
+                       "record iterators (RecordsIter, OwnerRrs, Rrset: SliceRefsOrOwned) are modelled, not verified.",
+        "assumptions": [
+            "RecordsIter yields the owner groups of the sorted zone in order, skip_before drops the names before the first one at or below the apex; "
+            "OwnerRrs::{owner, is_in_zone, is_zone_cut, rrsets} and Rrset::{rtype, class, len, first} answer as their text says (is_zone_cut: not the apex and an NS RRset)",
+            "the zone has its only SOA RRset at the first name of the zone (precondition of the contract)",
+            "RtypeBitmapBuilder::add inserts the type and does not fail on an unbounded octets builder; finalize keeps the set (encoding: C05)",
+            "ToName::ends_with and == on names compare label-wise ignoring ASCII case (C04)",
+        ],
+    },
     "C14": {
         "level": "other",
         "units": ["nsecval"],
